@@ -105,3 +105,240 @@ Proof.
     exfalso. rewrite <- E1 in E2. discriminate E2.
   - vm_compute. reflexivity.
 Qed.
+
+(* ================================================================== *)
+(* The header theorems for the CONCRETE reader: parse_table of
+   Model/CsvTable.v (= parse_tx_csv after csv tokenisation: header cells
+   lower-cased (ASCII) and trimmed (str::trim, Unicode White_Space on UTF-8
+   bytes), looked up among the 16 column names; every record's non-blank
+   trimmed cells stored under the recognised column, a later one replacing an
+   earlier one; every field parsed).  The result compared is the whole
+   outcome: the CsvTx list, the affiliate table, or the rejection. *)
+From ACB Require Import Model.CsvFields Model.CsvTable Model.Bridge Proofs.BridgeProps.
+Local Open Scope N_scope.
+
+(* Columns.  header' / rows' have the columns of header / rows in another
+   order: for every record the zipped columns (header cell, cell) are a
+   permutation of each other.  Guard (as for C07_columns): no record has two
+   non-blank cells under headers recognised as the same column. *)
+Theorem C07_columns_concrete : forall tbl header header' rows rows' ri0,
+  Permutation header header' ->
+  Forall2 (fun r r' => cols_permuted header header' r r' /\ no_dup_column header r) rows rows' ->
+  parse_table tbl header' rows' ri0 = parse_table tbl header rows ri0.
+Proof. exact BridgeProps.columns_concrete. Qed.
+Check C07_columns_concrete : forall tbl header header' rows rows' ri0,
+  Permutation header header' ->
+  Forall2 (fun r r' => cols_permuted header header' r r' /\ no_dup_column header r) rows rows' ->
+  parse_table tbl header' rows' ri0 = parse_table tbl header rows ri0.
+Print Assumptions C07_columns_concrete.
+
+(* the instance "one permutation of the column positions applied to the
+   header and to every record" *)
+Theorem C07_columns_same_permutation : forall tbl header rows ri0 p,
+  Permutation p (seq 0 (length header)) ->
+  Forall (fun r => length r = length header /\ no_dup_column header r) rows ->
+  parse_table tbl (permute p header) (map (permute p) rows) ri0 = parse_table tbl header rows ri0.
+Proof. exact BridgeProps.columns_same_permutation. Qed.
+Check C07_columns_same_permutation : forall tbl header rows ri0 p,
+  Permutation p (seq 0 (length header)) ->
+  Forall (fun r => length r = length header /\ no_dup_column header r) rows ->
+  parse_table tbl (permute p header) (map (permute p) rows) ri0 = parse_table tbl header rows ri0.
+Print Assumptions C07_columns_same_permutation.
+
+(* Unrecognised columns: deleting every column whose header cell is not
+   recognised changes nothing; hence two tables that agree on their
+   recognised columns (unrecognised columns inserted anywhere, any content)
+   are read the same.  Records as long as the header (the csv crate rejects
+   other records before acb sees them: RejParse 20). *)
+Theorem C07_unknown_columns_concrete : forall tbl header rows ri0,
+  Forall (fun r => length r = length header) rows ->
+  parse_table tbl (keep_known header header) (map (keep_known header) rows) ri0
+  = parse_table tbl header rows ri0.
+Proof. exact BridgeProps.unknown_columns_concrete. Qed.
+Check C07_unknown_columns_concrete : forall tbl header rows ri0,
+  Forall (fun r => length r = length header) rows ->
+  parse_table tbl (keep_known header header) (map (keep_known header) rows) ri0
+  = parse_table tbl header rows ri0.
+Print Assumptions C07_unknown_columns_concrete.
+
+Theorem C07_unknown_columns_insert : forall tbl h1 rows1 h2 rows2 ri0,
+  Forall (fun r => length r = length h1) rows1 -> Forall (fun r => length r = length h2) rows2 ->
+  keep_known h1 h1 = keep_known h2 h2 ->
+  map (keep_known h1) rows1 = map (keep_known h2) rows2 ->
+  parse_table tbl h1 rows1 ri0 = parse_table tbl h2 rows2 ri0.
+Proof. exact BridgeProps.unknown_columns_insert. Qed.
+Check C07_unknown_columns_insert : forall tbl h1 rows1 h2 rows2 ri0,
+  Forall (fun r => length r = length h1) rows1 -> Forall (fun r => length r = length h2) rows2 ->
+  keep_known h1 h1 = keep_known h2 h2 ->
+  map (keep_known h1) rows1 = map (keep_known h2) rows2 ->
+  parse_table tbl h1 rows1 ri0 = parse_table tbl h2 rows2 ri0.
+Print Assumptions C07_unknown_columns_insert.
+
+(* Header spelling: the header enters only through the column each cell is
+   recognised as, recognise h = col_of_name (trim (lower h)); and ASCII case
+   and padding with ASCII blanks do not change the normal form trim (lower h). *)
+Theorem C07_header_spelling_concrete : forall tbl header header' rows ri0,
+  map recognise header = map recognise header' ->
+  parse_table tbl header' rows ri0 = parse_table tbl header rows ri0.
+Proof. exact BridgeProps.header_spelling_concrete. Qed.
+Check C07_header_spelling_concrete : forall tbl header header' rows ri0,
+  map recognise header = map recognise header' ->
+  parse_table tbl header' rows ri0 = parse_table tbl header rows ri0.
+Print Assumptions C07_header_spelling_concrete.
+
+Theorem C07_header_norm_case_padding : forall h h' a b,
+  forallb is_ascii_ws a = true -> forallb is_ascii_ws b = true -> lower h' = lower h ->
+  norm (a ++ h' ++ b) = norm h.
+Proof. exact BridgeProps.header_norm_case_padding. Qed.
+Check C07_header_norm_case_padding : forall h h' a b,
+  forallb is_ascii_ws a = true -> forallb is_ascii_ws b = true -> lower h' = lower h ->
+  norm (a ++ h' ++ b) = norm h.
+Print Assumptions C07_header_norm_case_padding.
+
+(* Non-vacuity: an 11-column table with an unrecognised column, a respelt and
+   a padded header cell, foreign currency, registered affiliate: the guards
+   hold, both rows parse, and the permuted / reduced tables are different
+   tables. *)
+Example C07_concrete_nonvacuous :
+  let header := HeaderExample.header in
+  let rows := [HeaderExample.row1; HeaderExample.row2] in
+  let p := HeaderExample.perm in
+  Permutation p (seq 0 (length header)) /\
+  Forall (fun r => length r = length header /\ no_dup_column header r) rows /\
+  (exists vs tbl, parse_table [] header rows 0 = Ok (vs, tbl) /\ length vs = 2%nat /\ length tbl = 1%nat) /\
+  permute p header <> header /\ keep_known header header <> header /\
+  map recognise header
+  = [Some KSec; Some KTd; None; Some KSd; Some KAct; Some KSh; Some KAps; Some KCom; Some KCur; Some KFx; Some KAf].
+Proof.
+  cbv zeta. split; [|split; [|split; [|split; [|split]]]].
+  - unfold HeaderExample.perm. cbn [length HeaderExample.header seq].
+    apply (Permutation_trans (l' := [0; 4; 10; 2; 9; 1; 3; 8; 5; 7; 6]%nat)); [apply perm_swap|].
+    apply perm_skip.
+    apply (Permutation_trans (l' := [1; 4; 10; 2; 9; 3; 8; 5; 7; 6]%nat)).
+    { apply Permutation_sym. apply (Permutation_middle [4; 10; 2; 9]%nat [3; 8; 5; 7; 6]%nat 1%nat). }
+    apply perm_skip.
+    apply (Permutation_trans (l' := [2; 4; 10; 9; 3; 8; 5; 7; 6]%nat)).
+    { apply Permutation_sym. apply (Permutation_middle [4; 10]%nat [9; 3; 8; 5; 7; 6]%nat 2%nat). }
+    apply perm_skip.
+    apply (Permutation_trans (l' := [3; 4; 10; 9; 8; 5; 7; 6]%nat)).
+    { apply Permutation_sym. apply (Permutation_middle [4; 10; 9]%nat [8; 5; 7; 6]%nat 3%nat). }
+    apply perm_skip. apply perm_skip.
+    apply (Permutation_trans (l' := [5; 10; 9; 8; 7; 6]%nat)).
+    { apply Permutation_sym. apply (Permutation_middle [10; 9; 8]%nat [7; 6]%nat 5%nat). }
+    apply perm_skip.
+    apply (Permutation_trans (l' := [6; 10; 9; 8; 7]%nat)).
+    { apply Permutation_sym. apply (Permutation_middle [10; 9; 8; 7]%nat []%nat 6%nat). }
+    apply perm_skip.
+    apply (Permutation_trans (l' := [7; 10; 9; 8]%nat)).
+    { apply Permutation_sym. apply (Permutation_middle [10; 9; 8]%nat []%nat 7%nat). }
+    apply perm_skip.
+    apply (Permutation_trans (l' := [8; 10; 9]%nat)).
+    { apply Permutation_sym. apply (Permutation_middle [10; 9]%nat []%nat 8%nat). }
+    apply perm_skip. apply perm_swap.
+  - constructor; [split; [reflexivity|]|constructor; [split; [reflexivity|]|constructor]];
+      unfold no_dup_column; vm_compute;
+      repeat (constructor; [cbn; intuition discriminate|]); constructor.
+  - eexists. eexists. split; [vm_compute; reflexivity|]. split; reflexivity.
+  - vm_compute. discriminate.
+  - vm_compute. discriminate.
+  - vm_compute. reflexivity.
+Qed.
+
+(* ================================================================== *)
+(* The bridge (Model/Bridge.v): cells of the files --parse_table, load_rates,
+   tx_try_from--> Tx records --abs_tx--> ledger rows.  Rows that parse satisfy
+   the hypotheses the ledger theorems assume of their rows:
+     valid_tx (C05 vtx; positive / non-negative quantities and rates),
+     af_reg (t_af r) = regof (af_id (t_af r)) with regof default_id = false
+       (C04_only_listed_rejections, C05 row_ok', C15 goodaf),
+   for every row not addressed to the pseudo-affiliate "__global__" (those
+   are replaced by replace_global_splits before the ledger runs).
+   [tbl_wf tbl]: the affiliate table of the process at the start ([] in the
+   check) holds only entries whose registered flag agrees with their id;
+   [names_ok]: at most 1000 distinct affiliate ids sort before "default"
+   (the numbering puts "default" at 1000 and the bookkeeping model uses N). *)
+Theorem C07_valid_rows_after_parse : forall tbl fs ri0 txs tbl' inits,
+  tbl_wf tbl -> read_files tbl fs ri0 = Ok (txs, tbl') ->
+  let nm := naming_of inits txs in
+  names_ok nm = true ->
+  Forall (fun r => Tx.valid_tx r = true) (map (abs_tx nm) txs)
+  /\ regof nm default_id = false
+  /\ Forall (fun r => t_glob r = false -> af_reg (t_af r) = regof nm (af_id (t_af r))) (map (abs_tx nm) txs).
+Proof. exact BridgeProps.valid_rows_after_parse. Qed.
+Check C07_valid_rows_after_parse : forall tbl fs ri0 txs tbl' inits,
+  tbl_wf tbl -> read_files tbl fs ri0 = Ok (txs, tbl') ->
+  let nm := naming_of inits txs in
+  names_ok nm = true ->
+  Forall (fun r => Tx.valid_tx r = true) (map (abs_tx nm) txs)
+  /\ regof nm default_id = false
+  /\ Forall (fun r => t_glob r = false -> af_reg (t_af r) = regof nm (af_id (t_af r))) (map (abs_tx nm) txs).
+Print Assumptions C07_valid_rows_after_parse.
+
+(* The numbering of the affiliate ids preserves the order of the Rust id()
+   strings (bytewise lexicographic = String's Ord), with "default" at
+   default_id; the numbering of the securities is injective. *)
+Theorem C07_affiliate_order : forall nm a b,
+  names_ok nm = true -> In a (nm_affs nm) -> In b (nm_affs nm) ->
+  (aff_num nm a < aff_num nm b <-> bltb a b = true).
+Proof. exact BridgeProps.aff_num_order. Qed.
+Check C07_affiliate_order : forall nm a b,
+  names_ok nm = true -> In a (nm_affs nm) -> In b (nm_affs nm) ->
+  (aff_num nm a < aff_num nm b <-> bltb a b = true).
+Print Assumptions C07_affiliate_order.
+
+Theorem C07_default_affiliate_number : forall nm,
+  names_ok nm = true -> aff_num nm s_default_id = default_id.
+Proof. exact BridgeProps.aff_num_default. Qed.
+Check C07_default_affiliate_number : forall nm,
+  names_ok nm = true -> aff_num nm s_default_id = default_id.
+Print Assumptions C07_default_affiliate_number.
+
+Theorem C07_security_numbering_injective : forall nm a b,
+  In a (nm_secs nm) -> In b (nm_secs nm) -> sec_num nm a = sec_num nm b -> a = b.
+Proof. exact BridgeProps.sec_num_inj. Qed.
+Check C07_security_numbering_injective : forall nm a b,
+  In a (nm_secs nm) -> In b (nm_secs nm) -> sec_num nm a = sec_num nm b -> a = b.
+Print Assumptions C07_security_numbering_injective.
+
+(* Non-vacuity: the example table is read into two ledger rows (a USD purchase
+   by "spouse (R)", numbered 1001 and registered, at rate 1.31 for the shares
+   and the commission; a sale by the default affiliate, 1000) and the ledger
+   runs on them. *)
+Example C07_bridge_nonvacuous :
+  exists txs tbl',
+    read_files [] [(HeaderExample.header, [HeaderExample.row1; HeaderExample.row2])] 0 = Ok (txs, tbl') /\
+    names_ok (naming_of [] txs) = true /\
+    map (fun r => (af_id (t_af r), af_reg (t_af r), t_ri r)) (map (abs_tx (naming_of [] txs)) txs)
+    = [(1001, true, 0); (1000, false, 1)] /\
+    map (fun r => match t_act r with
+                  | Buy sh aps com rate crate => [this sh; this aps; this com; this rate; this crate]
+                  | Sell sh aps com rate crate _ => [this sh; this aps; this com; this rate; this crate]
+                  | _ => []
+                  end) (map (abs_tx (naming_of [] txs)) txs)
+    = [[10 # 1; 3 # 2; 0 # 1; 131 # 100; 131 # 100]; [4 # 1; 2 # 1; 99 # 100; 1 # 1; 1 # 1]]%Q /\
+    is_ok (read_and_run exact [] [] [(HeaderExample.header, [HeaderExample.row1; HeaderExample.row2])]) = true.
+Proof.
+  eexists. eexists. split; [vm_compute; reflexivity|].
+  split; [vm_compute; reflexivity|]. split; [vm_compute; reflexivity|].
+  split; [vm_compute; reflexivity|]. vm_compute. reflexivity.
+Qed.
+
+(* The rows the ledger is actually run on: for every security, the rows that
+   App.replace_global_splits hands to [run] (splits for all affiliates expanded
+   over the holders) all satisfy valid_tx and the registered-flag hypothesis -
+   provided no row other than a split names the pseudo-affiliate "__global__"
+   in its affiliate cell. *)
+Theorem C07_run_rows_ok : forall tbl fs ri0 txs tbl' inits s hi l,
+  tbl_wf tbl -> read_files tbl fs ri0 = Ok (txs, tbl') ->
+  let nm := naming_of inits txs in
+  names_ok nm = true -> only_splits_global txs ->
+  replace_global_splits hi (txs_of_sec s (sort_txs (map (abs_tx nm) txs))) = Ok l ->
+  Forall (fun r => Tx.valid_tx r = true /\ af_reg (t_af r) = regof nm (af_id (t_af r))) l.
+Proof. exact BridgeProps.run_rows_ok. Qed.
+Check C07_run_rows_ok : forall tbl fs ri0 txs tbl' inits s hi l,
+  tbl_wf tbl -> read_files tbl fs ri0 = Ok (txs, tbl') ->
+  let nm := naming_of inits txs in
+  names_ok nm = true -> only_splits_global txs ->
+  replace_global_splits hi (txs_of_sec s (sort_txs (map (abs_tx nm) txs))) = Ok l ->
+  Forall (fun r => Tx.valid_tx r = true /\ af_reg (t_af r) = regof nm (af_id (t_af r))) l.
+Print Assumptions C07_run_rows_ok.
